@@ -69,6 +69,14 @@ def h_dispatch(I, fi):
         def a_shape(self, I_):
             return (alg.sym("D", "Int"), G)
 
+        def a_size(self, I_):
+            # numpy: size = number of elements = D * G (the route must not depend on the number of samples)
+            return alg.sym("D", "Int") * G
+
+        def a_ndim(self, I_):
+            return 2
+
+    P.assume(P.z(alg.sym("D", "Int")) >= 1)
     a, b = A("child_1"), A("child_2")
     calls = []
     I.registry.call_contracts[TU + "._np_conv_dims"] = lambda I_, ar, k, n: (calls.append(("direct", ar[0], ar[1])), ("conv-direct",))[1]
